@@ -135,3 +135,4 @@ TARGETS += [M_DCFG + ":DefaultApplicationConfig.resolve_help_command", M_DCFG + 
 # Question.ask on a non-interactive input returns the default, asking, validating and printing nothing
 from . import question_contracts as qc  # noqa: E402
 TARGETS += [qc.M_Q + ":Question.ask"]
+R.opaque_hook = qc.opaque_question  # the validator / interviewer of a question are arbitrary callables (as under C18)
